@@ -853,6 +853,35 @@ func registerMisc() {
 	intrinsics["strings.ToUpper"] = func(in *Interp, fr *frame, a []Value) Value {
 		return in.mapASCII(a[0].(*StrV), false)
 	}
+	intrinsics["strings.TrimSpace"] = func(in *Interp, fr *frame, a []Value) Value {
+		s := a[0].(*StrV)
+		if s.op != nil {
+			in.unsupported("TrimSpace on opaque string")
+		}
+		tc := in.tc
+		isSpace := func(b *Term) bool {
+			if b.IsConst() {
+				c := byte(b.k)
+				if c >= 0x80 {
+					in.unsupported("TrimSpace: non-ASCII byte")
+				}
+				return c == ' ' || (c >= '\t' && c <= '\r')
+			}
+			if !in.branch(tc.Lt(b, tc.BV(8, 0x80), false)) {
+				in.unsupported("TrimSpace: symbolic non-ASCII byte")
+			}
+			sp := tc.Or(tc.Eq(b, tc.BV(8, ' ')), tc.And(tc.Le(tc.BV(8, '\t'), b, false), tc.Le(b, tc.BV(8, '\r'), false)))
+			return in.branch(sp)
+		}
+		lo, hi := 0, len(s.b)
+		for lo < hi && isSpace(s.b[lo]) {
+			lo++
+		}
+		for hi > lo && isSpace(s.b[hi-1]) {
+			hi--
+		}
+		return &StrV{b: s.b[lo:hi]}
+	}
 	intrinsics["strings.EqualFold"] = func(in *Interp, fr *frame, a []Value) Value {
 		x, y := a[0].(*StrV), a[1].(*StrV)
 		return in.strEq(in.mapASCII(x, true), in.mapASCII(y, true))
